@@ -143,6 +143,8 @@ class G:
         if k == 0:
             return "%s %s = %s;" % (self.tname(), v, self.expr())
         if k == 1:
+            if self.rng.random() < 0.3:
+                return "int %s[*&a + 1][sizeof(int)];" % v          # variable-length array whose size begins with a unary operator
             return "int %s[3] = {%s, [2] = %s};" % (v, self.expr(), self.expr())
         if k == 2:
             return "struct S %s = {.m = %s, .in.k = %s};" % (v, self.expr(), self.expr())
@@ -153,6 +155,9 @@ class G:
         if k == 5:
             return "int (*%s)(int) = f;" % v
         if k == 6 and self.typedefs:
+            if self.rng.random() < 0.5:
+                # a typedef name followed by any declarator, at block scope (where a statement that starts with an identifier is first tried as an expression)
+                return "%s %s;" % (self.ch(*self.typedefs), self.declarator(v))
             return "%s %s, *%s_p = 0;" % (self.ch(*self.typedefs), v, v)
         if k == 7:
             return "_Static_assert(sizeof(int) >= 2, \"w\");"
